@@ -74,6 +74,12 @@ class RecheckProp(Prop):
              "what": "v1 recheck iterator incl. bytearray aliasing vs RecheckRef, all (recorded, on-disk) states, <=3 files"},
             {"module": "FeedChecker.tla", "cfg": "MC_FeedChecker_pads.cfg", "tier": "thorough",
              "what": "same with BEP 47 padding entries"},
+            {"module": "FeedChecker.tla", "cfg": "MC_FeedChecker_4files.cfg", "tier": "thorough",
+             "what": "4 files, sizes 0..3: 168 390 inputs"},
+            {"module": "FeedChecker.tla", "cfg": "MC_FeedChecker_P3.cfg", "tier": "thorough",
+             "what": "piece length 3 (odd), sizes 0..7"},
+            {"module": "HashChecker.tla", "cfg": "MC_HashChecker_4files.cfg", "tier": "thorough",
+             "what": "4 files, sizes 0..3"},
             {"module": "HashChecker.tla", "cfg": "MC_HashChecker_quick.cfg" if q else "MC_HashChecker.cfg",
              "what": "v2/hybrid recheck iterator + Padder + FileHasher on short/absent files vs RecheckRef"},
             {"module": "FeedChecker.tla", "cfg": "MC_FeedChecker_code.cfg", "expect": "fail",
@@ -136,7 +142,7 @@ class C16(RecheckProp):
             "damages from {flip at piece boundaries, truncate to boundary lengths, remove}); distinct by all of these")
 
     def cases(self, tier, rng):
-        n = 2500 if tier == "thorough" else 420
+        n = 8000 if tier == "thorough" else 420
         out = []
         cl = ["C16.stream", "C16.total", "C16.ppm", "M16.impl"]
         for k in range(n):
@@ -163,7 +169,7 @@ class C04(RecheckProp):
             "cases whose damage set turned out empty are still executed but not counted")
 
     def cases(self, tier, rng):
-        n = 2500 if tier == "thorough" else 420
+        n = 8000 if tier == "thorough" else 420
         out = []
         for k in range(n):
             v = (1, 2, 3)[k % 3]
@@ -206,7 +212,7 @@ class C05(RecheckProp):
             "multiple of P or is single-file")
 
     def cases(self, tier, rng):
-        n = 1500 if tier == "thorough" else 260
+        n = 5000 if tier == "thorough" else 260
         out = []
         g = 0
         trees = []
